@@ -1,5 +1,5 @@
 (* C04 - PreTranslator's marking (Model/C04Ext.v): soundness (an external subtree mentions no query variable and no lambda parameter
-   of its context, so evaluating it in the caller's scope is meaningful) on trees without the known list/starred defect, and
+   of its context, so evaluating it in the caller's scope is meaningful), and
    maximality (an expression that mentions no query variable and contains nothing the marking refuses is external as a whole). *)
 From Coq Require Import ZArith List Bool Arith Lia.
 Import ListNotations.
@@ -37,20 +37,13 @@ Proof.
   destruct (a_ext a) as [[|]|]; try discriminate H. reflexivity.
 Qed.
 
-Lemma honest_node : forall l e c r acs, honest (ANode l e c r acs) = true ->
-  forallb honest acs = true /\ (match l with LOp KStarArg | LOp KStarElt | LOp KList => forallb ext_child acs = true | _ => True end).
-Proof.
-  intros l e c r acs H. simpl in H. apply andb_prop in H. destruct H as [H1 H2]. split; [exact H2|].
-  destruct l; try exact I. destruct k; try exact I; exact H1.
-Qed.
-
 (* a node marked external (before the final pass) mentions nothing of its context and contains no lambda *)
-Lemma ext_true_sound : forall e ctx, wf e = true -> honest (mark fclass ctx e) = true ->
+Lemma ext_true_sound : forall e ctx, wf e = true ->
   a_ext (mark fclass ctx e) = Some true -> mentions ctx e = false /\ lambda_free e = true.
 Proof.
-  induction e as [l cs IH] using expr_ind'. intros ctx Hw Hh He.
-  destruct (mark_node ctx l cs) as [e1 [c0 [r0 [Em Hc]]]]. rewrite Em in Hh, He. simpl in He. subst e1.
-  specialize (Hc eq_refl). destruct (honest_node _ _ _ _ _ Hh) as [Hhk Hstar].
+  induction e as [l cs IH] using expr_ind'. intros ctx Hw He.
+  destruct (mark_node ctx l cs) as [e1 [c0 [r0 [Em Hc]]]]. rewrite Em in He. simpl in He. subst e1.
+  specialize (Hc eq_refl).
   simpl in Hw. apply andb_prop in Hw. destruct Hw as [Hw Hwk]. apply andb_prop in Hw. destruct Hw as [Har _].
   (* all children are external: the conclusion follows from the induction hypothesis *)
   assert (Kids : l <> LName [] -> (forall s, l <> LName s) -> (forall a, l <> LLambda a) ->
@@ -59,8 +52,8 @@ Proof.
     assert (Hk : forall c, In c cs -> mentions ctx c = false /\ lambda_free c = true).
     { intros c Hin. rewrite Forall_forall in IH. rewrite forallb_forall in Hwk.
       assert (Lm : (match l with LLambda args => args ++ ctx | _ => ctx end) = ctx) by (destruct l; try reflexivity; exfalso; eapply Hl; reflexivity).
-      rewrite Lm in Hhk. rewrite forallb_forall in Hhk, Hall.
-      apply (IH c Hin ctx (Hwk c Hin)); [apply Hhk; apply in_map; exact Hin|].
+      rewrite forallb_forall in Hall.
+      apply (IH c Hin ctx (Hwk c Hin)).
       apply ext_child_ext. apply Hall. apply in_map. exact Hin. }
     split.
     - assert (E1 : match l with LName s => mem s ctx | _ => false end = false) by (destruct l; try reflexivity; exfalso; eapply Hn; reflexivity).
@@ -79,11 +72,12 @@ Proof.
     assert (N0 : LOp k <> LName []) by (intros E; discriminate E).
     assert (All : forallb ext_child (map (mark fclass ctx) cs) = true).
     { destruct Hc as [Hc|[_ [_ [_ Hc]]]]; [|exact Hc].
-      destruct k; cbn in Hc; try discriminate Hc; try exact Hstar.
-      (* Call: post never returns Some true *)
-      destruct cs as [|f args]; cbn in Hc; [discriminate Hc|].
-      destruct (is_true (a_ext (mark fclass ctx f))); [|discriminate Hc].
-      destruct (dotted f) as [p|]; [|discriminate Hc]. destruct (fclass p); discriminate Hc. }
+      destruct k; cbn in Hc; try discriminate Hc.
+      - (* Call: post never returns Some true *)
+        destruct cs as [|f args]; cbn in Hc; [discriminate Hc|].
+        destruct (is_true (a_ext (mark fclass ctx f))); [|discriminate Hc].
+        destruct (dotted f) as [p|]; [|discriminate Hc]. destruct (fclass p); discriminate Hc.
+      - (* the empty list display *) destruct cs; [reflexivity|discriminate Hc]. }
     apply Kids; assumption.
   - (* Compare *) apply Kids; try (intros; discriminate). destruct Hc as [Hc|[_ [_ [_ Hc]]]]; [discriminate Hc|exact Hc].
   - (* Lambda *) destruct Hc as [Hc|[_ [_ [Hc _]]]]; discriminate Hc.
@@ -94,7 +88,6 @@ Proof.
   - (* Joined *) apply Kids; try (intros; discriminate). destruct Hc as [Hc|[_ [_ [_ Hc]]]]; [discriminate Hc|exact Hc].
   - (* Formatted *) apply Kids; try (intros; discriminate). destruct Hc as [Hc|[_ [_ [_ Hc]]]]; [discriminate Hc|exact Hc].
 Qed.
-
 
 (* ------------------------------------------------------------------ paths *)
 
@@ -128,17 +121,6 @@ Proof.
   - destruct e as [l cs]. simpl in H. destruct (nth_error cs i) as [c|] eqn:E; [|discriminate H].
     simpl in Hw. apply andb_prop in Hw. destruct Hw as [_ Hw]. rewrite forallb_forall in Hw.
     eapply IH; [exact H|]. apply Hw. eapply nth_error_In; eauto.
-Qed.
-
-Lemma honest_kids : forall a, honest a = true -> forallb honest (a_kids a) = true.
-Proof. intros [l e c r cs] H. simpl in H. apply andb_prop in H. destruct H as [_ H]. exact H. Qed.
-
-Lemma asub_honest : forall p a n, asub a p = Some n -> honest a = true -> honest n = true.
-Proof.
-  induction p as [|i p IH]; intros a n H Hh.
-  - simpl in H. injection H as <-. exact Hh.
-  - cbn [asub] in H. destruct (nth_error (a_kids a) i) as [c|] eqn:E; [|discriminate H].
-    eapply IH; [exact H|]. pose proof (honest_kids a Hh) as Hk. rewrite forallb_forall in Hk. apply Hk. eapply nth_error_In; eauto.
 Qed.
 
 Lemma asub_app : forall p a n i c, asub a p = Some n -> nth_error (a_kids n) i = Some c -> asub a (p ++ [i]) = Some c.
@@ -228,19 +210,18 @@ Proof.
   - destruct Hin as [<-|[]]. exact Hp.
 Qed.
 
-(* SOUNDNESS of the marking (on trees without the list/starred defect): every external of a well-formed query body, in the context
+(* SOUNDNESS of the marking: every external of a well-formed query body, in the context
    that holds where it stands (query variables plus parameters of enclosing lambdas), mentions none of those names and contains no
    lambda: evaluating it in the caller's scope is meaningful. *)
 Theorem externals_sound : forall ctx e p c' s,
-  wf e = true -> honest (mark fclass ctx e) = true ->
+  wf e = true ->
   In p (externals fclass ctx e) -> sub_ctx ctx e p = Some (c', s) ->
   mentions c' s = false /\ lambda_free s = true.
 Proof.
-  intros ctx e p c' s Hw Hh Hin Hs. unfold externals in Hin.
+  intros ctx e p c' s Hw Hin Hs. unfold externals in Hin.
   pose proof (final_points _ p (narrow_mark e ctx Hw) Hin) as Hp. unfold points_ext in Hp.
   rewrite (asub_mark p ctx e c' s Hs) in Hp.
-  apply (ext_true_sound s c' (sub_wf p ctx e c' s Hs Hw)); [|exact Hp].
-  eapply asub_honest; [apply asub_mark; exact Hs|exact Hh].
+  apply (ext_true_sound s c' (sub_wf p ctx e c' s Hs Hw)). exact Hp.
 Qed.
 
 (* ------------------------------------------------------------------ maximality *)
@@ -254,7 +235,7 @@ Fixpoint markable (e : expr) : bool :=
     | LFormatted _ (Some []) => false
     | LName _ | LConst _ | LNegConst _ => true
     | LSlice false false false => true
-    | LOp KStarArg | LOp KStarElt | LOp KList => true
+    | LOp KList => true
     | LOp KCall => match cs with
                    | f :: _ => match dotted f with Some p => match fclass p with FSpecial | FRawSql => false | _ => true end | None => true end
                    | [] => false
@@ -285,14 +266,18 @@ Proof.
     - injection Ep as <- <- <-. auto.
     - destruct k; try (injection Ep as <- <- <-; split; [right; split; [reflexivity|split; [exact Hm|reflexivity]]|reflexivity]);
         try (injection Ep as <- <- <-; split; [left; reflexivity|reflexivity]).
-      (* Call *)
-      destruct cs as [|f args]; [discriminate Hm|]. cbn in Ep.
-      assert (HC : has_children (LOp KCall) (length (f :: args)) = true) by reflexivity.
-      destruct (is_true (a_ext (mark fclass ctx f))).
-      + destruct (dotted f) as [p|].
-        * destruct (fclass p); try discriminate Hm; injection Ep as <- <- <-; split; auto.
+      + (* Call *)
+        destruct cs as [|f args]; [discriminate Hm|]. cbn in Ep.
+        assert (HC : has_children (LOp KCall) (length (f :: args)) = true) by reflexivity.
+        destruct (is_true (a_ext (mark fclass ctx f))).
+        * destruct (dotted f) as [p|].
+          -- destruct (fclass p); try discriminate Hm; injection Ep as <- <- <-; split; auto.
+          -- injection Ep as <- <- <-. split; auto.
         * injection Ep as <- <- <-. split; auto.
-      + injection Ep as <- <- <-. split; auto.
+      + (* List *)
+        destruct cs as [|c cs]; injection Ep as <- <- <-.
+        * split; [left; reflexivity|reflexivity].
+        * split; [right; split; [reflexivity|split; reflexivity]|reflexivity].
     - injection Ep as <- <- <-. split; [right; split; [reflexivity|split; [exact Hm|reflexivity]]|reflexivity].
     - discriminate Hm.
     - injection Ep as <- <- <-. split; [right; split; [reflexivity|split; [exact Hm|reflexivity]]|reflexivity].
@@ -320,15 +305,7 @@ Qed.
 
 End Marking.
 
-(* ------------------------------------------------------------------ the known defect: a list (or starred) element that mentions a
-   query variable.  `p.x == f([p.y])`: the call is marked external as a whole and would be evaluated in the caller's scope. *)
 Definition nm (s : str) : expr := Node (LName s) [].
-Definition bad_query : expr :=
-  Node (LOp KCall) [nm [102]%Z; Node (LOp KList) [Node (LAttribute [121]%Z) [nm [112]%Z]]].      (* f([p.y]) *)
-
-Lemma list_marking_refuted :
-  In [] (externals (fun _ => FPlain) [[112]%Z] bad_query) /\ mentions [[112]%Z] bad_query = true /\ wf bad_query = true.
-Proof. vm_compute. repeat split; auto. Qed.
 
 (* ------------------------------------------------------------------ keys of the parameters *)
 
